@@ -604,35 +604,60 @@ func (ex *Exec) mergeMap(g *Term, x, y *MapData) *MapData {
 	return n
 }
 
-// mergeHeaps: result heap "if g then a else b".
+// mergeHeaps: result heap "if g then a else b". Shared sub-tries are skipped.
 func (ex *Exec) mergeHeaps(g *Term, a, b *Heap) *Heap {
-	if a == b {
+	if a == b || a.root == b.root {
 		return a
 	}
-	n := &Heap{m: make(map[int]Value, len(a.m))}
-	for k, va := range a.m {
-		vb, ok := b.m[k]
-		if !ok {
-			if iv, isG := ex.globalInit[k]; isG {
-				n.m[k] = ex.mergeVal(g, va, iv)
-			} else {
-				n.m[k] = va
+	var rec func(x, y *hnode, lvl int, base int) *hnode
+	rec = func(x, y *hnode, lvl int, base int) *hnode {
+		if x == y {
+			return x
+		}
+		var c hnode
+		if lvl == 0 {
+			for s := 0; s < 32; s++ {
+				bit := uint32(1) << uint(s)
+				hx := x != nil && x.has&bit != 0
+				hy := y != nil && y.has&bit != 0
+				switch {
+				case hx && hy:
+					c.vals[s] = ex.mergeVal(g, x.vals[s], y.vals[s])
+					c.has |= bit
+				case hx:
+					if iv, isG := ex.globalInit[base|s]; isG {
+						c.vals[s] = ex.mergeVal(g, x.vals[s], iv)
+					} else {
+						c.vals[s] = x.vals[s]
+					}
+					c.has |= bit
+				case hy:
+					if iv, isG := ex.globalInit[base|s]; isG {
+						c.vals[s] = ex.mergeVal(g, iv, y.vals[s])
+					} else {
+						c.vals[s] = y.vals[s]
+					}
+					c.has |= bit
+				}
 			}
-			continue
+			return &c
 		}
-		n.m[k] = ex.mergeVal(g, va, vb)
+		for s := 0; s < 32; s++ {
+			var kx, ky *hnode
+			if x != nil {
+				kx = x.kids[s]
+			}
+			if y != nil {
+				ky = y.kids[s]
+			}
+			if kx == nil && ky == nil {
+				continue
+			}
+			c.kids[s] = rec(kx, ky, lvl-1, base|(s<<(5*uint(lvl))))
+		}
+		return &c
 	}
-	for k, vb := range b.m {
-		if _, ok := a.m[k]; ok {
-			continue
-		}
-		if iv, isG := ex.globalInit[k]; isG {
-			n.m[k] = ex.mergeVal(g, iv, vb)
-		} else {
-			n.m[k] = vb
-		}
-	}
-	return n
+	return &Heap{root: rec(a.root, b.root, heapLevels-1, 0)}
 }
 
 func (ex *Exec) strBytes(s *StringV) []*Term {
